@@ -83,6 +83,33 @@ void elscale_down(sink& out, std::vector<LT> const& ls)
     }
 }
 
+// the six comparisons of two elastic_integers / an elastic_integer and a built-in integer (C05's comparison clause; the
+// event has the shape of the scaled family's ScCmp and is judged by the same operator: by value)
+template<class LT, class RT>
+void elcmp(sink& out, std::vector<LT> const& ls, std::vector<RT> const& rs)
+{
+    if constexpr (requires(LT a, RT b) { a < b; a == b; }) {
+        int id = add_inst(out, ev("Inst").str("kind", "ScCmp").str("op", "cmp").raw("lt", desc<LT>()).raw("rt", desc<RT>())
+                                       .raw("res_t", desc<bool>()));
+        for (auto const& a : ls) {
+            for (auto const& b : rs) {
+                bool r[6] = {};
+                auto o = guarded([&] {
+                    r[0] = a < b;
+                    r[1] = a <= b;
+                    r[2] = a > b;
+                    r[3] = a >= b;
+                    r[4] = a == b;
+                    r[5] = a != b;
+                });
+                char buf[32];
+                std::snprintf(buf, sizeof(buf), "[%d,%d,%d,%d,%d,%d]", r[0], r[1], r[2], r[3], r[4], r[5]);
+                out.put(ev("ScCmp").num("i", id).raw("l", raw(a)).raw("r", raw(b)).raw("c", buf).str("out", o).s);
+            }
+        }
+    }
+}
+
 template<class T>
 void ellimits(sink& out)
 {
@@ -107,6 +134,7 @@ void el_pair(sink& out, int salt)
     elbin<multiply_op>(out, "mul", ls, rs);
     elbin<divide_op>(out, "div", ls, rs);
     elbin<modulo_op>(out, "mod", ls, rs);
+    elcmp(out, ls, rs);
     if constexpr (!std::is_integral_v<LT>) {
         auto lw = number_values<LT>(thorough() ? 60 : 10, static_cast<std::uint64_t>(salt) * 10 + 3, thorough() ? 2 : 1);
         elneg(out, lw);
